@@ -11,7 +11,7 @@ LEAN_MODULES = ["JSV.Props.C17"]
 RULE = ("skeleton documents nesting every schema-valued, schema-array-valued and schema-map-valued keyword of both drafts (incl. the "
         "items and dependencies unions) to depth <= 4, keys from {'', '/', '~', '~0', '~1', '%', ' ', 'é', '0', '-', 'a/b~c', '%25'}; "
         "every leaf carries a unique const mark and is referenced by '#'+percent-encoded RFC 6901 pointer; plus one invalid pointer "
-        "per op in a second stream (bad escapes, leading zeros, '-', '+0', out of range, through non-schema values, absent keywords); 15 % of the "
+        "per op in a second stream (bad escapes, leading zeros, '-', '+0', out of range, through non-schema values, absent keywords, a real location with one keyword spelled as the Go field name of the Schema struct: Defs, AllOf, ItemsArray, DependencySchemas, ...); 15 % of the "
         "references in an equivalent over-encoded spelling (unreserved characters, '~' and the separator '/' itself as %2F: decoding "
         "precedes the split into segments); member names with a raw '/' beside a sibling whose name is a prefix of it (`a`, `a/not`), "
         "addressed raw (#/$defs/a/not: the location inside a, or nothing), escaped (#/$defs/a~1not: the member) and over-encoded. "
@@ -112,8 +112,63 @@ BAD = ["#/$defs/S/~2", "#/$defs/S/~", "#/$defs/S/nosuch", "#/$defs/S/allOf/01", 
        "#$defs/S", "#//$defs/S", "#/$defs/S/allOf/0#", "#/$defs/s", "#/$DEFS/S"]
 
 
+def go_named(rng, root, segs, gonames):
+    """The valid location `segs` of `root` with ONE keyword-position segment replaced by the name of the Go struct field that holds
+    that keyword (`$defs` -> Defs, `allOf` -> AllOf, array-form `items` -> ItemsArray, schema-valued `dependencies` -> DependencySchemas;
+    the table is the real field table of jsonschema.Schema, asked from the harness). Pointer tokens are JSON member names:
+    a Go field name is no member of the document, the pointer names no location. Returns segments or None."""
+    cur, kwpos, i = root, [], 0
+    while i < len(segs) and isinstance(cur, Obj):
+        kw = segs[i]
+        val = cur.get(kw)
+        if kw == "items":
+            g = ["ItemsArray"] if isinstance(val, list) else ["Items"]
+        elif kw == "dependencies":
+            g = ["DependencySchemas"]
+        else:
+            g = gonames.get(kw, [])
+        g = [x for x in g if x != kw]
+        if g:
+            kwpos.append((i, g))
+        i += 1
+        if isinstance(val, list):
+            val = val[int(segs[i])] if i < len(segs) else None
+            i += 1
+        elif isinstance(val, Obj) and (kw in MAP_2020 or kw in MAP_7):
+            val = val.get(segs[i]) if i < len(segs) else None
+            i += 1
+        cur = val
+    if not kwpos:
+        return None
+    i, g = rng.choice(kwpos)
+    out = list(segs)
+    out[i] = rng.choice(g)
+    if rng.random() < 0.2:
+        out = out[:i + 1 + rng.randint(0, len(out) - i - 1)]      # ... or a prefix ending at / shortly below the Go-named segment
+    return out
+
+
+def go_field_names(fields):
+    """JSON keyword -> Go field names of the Schema struct (from the harness's field table; static fallback for the union members)."""
+    t = {}
+    for f in fields or []:
+        tag = (f.get("tag") or "").split(",")[0]
+        if tag and tag != "-":
+            t.setdefault(tag, []).append(f["name"])
+    t.setdefault("items", ["Items", "ItemsArray"])
+    t.setdefault("dependencies", ["DependencySchemas"])
+    return t
+
+
 def gen(rng, tier, n):
     ops = []
+    try:
+        from .. import core, gen_schemaval
+        gonames = go_field_names(gen_schemaval.fetch_fields(core))
+    except Exception:
+        gonames = go_field_names([{"name": a, "tag": b} for a, b in (("Defs", "$defs"), ("Definitions", "definitions"), ("AllOf", "allOf"),
+                                  ("AnyOf", "anyOf"), ("OneOf", "oneOf"), ("Not", "not"), ("Properties", "properties"), ("If", "if"),
+                                  ("PrefixItems", "prefixItems"), ("Contains", "contains"), ("AdditionalProperties", "additionalProperties"))])
     while len(ops) < n:
         draft = "2020" if rng.random() < 0.6 else "7"
         defs_kw = "$defs" if draft == "2020" else "definitions"
@@ -182,6 +237,11 @@ def gen(rng, tier, n):
                     continue
                 break
             b = b.replace("$defs", defs_kw)
+            if rng.random() < 0.3:
+                # a real location, one keyword segment spelled as the Go field name of the Schema struct instead of the JSON name
+                gs_ = go_named(rng, root, rng.choice(locs)[0], gonames)
+                if gs_ is not None:
+                    b = render(gs_)
             props.kvs.append(("bad", Obj([("$ref", b)])))
         root.set("properties", props)
         ops.append({"op": "validate", "args": {"schema": root, "insts": insts},
